@@ -29,6 +29,6 @@ require (
 	golang.org/x/crypto v0.13.0 // indirect
 )
 
-replace github.com/bnb-chain/tss-lib/v2 => /tmp/wt/dbg
+replace github.com/bnb-chain/tss-lib/v2 => /repo
 
 replace github.com/agl/ed25519 => github.com/binance-chain/edwards25519 v0.0.0-20200305024217-f36fc4b53d43
